@@ -233,6 +233,12 @@ func processPoints(points []Point, closed bool) (
 	var a, b, c Point
 	var cwc float64
 
+	// the repeated closing point of a closed ring is not a vertex of its own
+	npoints := len(points)
+	if closed && points[npoints-1] == points[0] {
+		npoints--
+	}
+
 	for i := 0; i < len(points); i++ {
 		// process the rectangle inflation
 		if i == 0 {
@@ -251,11 +257,14 @@ func processPoints(points []Point, closed bool) (
 		}
 
 		// gather some point positions for concave and clockwise detection
+		if i >= npoints {
+			continue
+		}
 		a = points[i]
-		if i == len(points)-1 {
+		if i == npoints-1 {
 			b = points[0]
 			c = points[1]
-		} else if i == len(points)-2 {
+		} else if i == npoints-2 {
 			b = points[i+1]
 			c = points[0]
 		} else {
